@@ -56,11 +56,7 @@ def run_translators(names):
     """run the named translators; returns list of (name, ok, output)."""
     res = []
     for n in names:
-        if n == "gosubset":
-            rc, out = sh([BIN + "/gosubset", "-repo", REPO, "-units",
-                          os.path.join(VERIF, "tools/extract/units.json"), "-out", LEAN], env=GOENV)
-        else:
-            rc, out = sh([BIN + "/" + n, "-repo", REPO, "-out", LEAN], env=GOENV)
+        rc, out = sh([BIN + "/" + n, "-repo", REPO, "-out", LEAN], env=GOENV)
         res.append((n, rc == 0, out.strip()))
     return res
 
@@ -132,9 +128,19 @@ def failed_theorems(build_out, props_files):
     return sorted(bad)
 
 
-def build_harness():
-    rc, out = sh(["go", "build", "-tags", "verif", "-o", os.path.join(BIN, "harness"), "."],
-                 cwd=os.path.join(VERIF, "harness"), env=GOENV, timeout=1800)
+def build_harness(hname):
+    """build harness/<hname> (its own main package) against the current working tree of REPO
+    (/repo, or $VERIF_REPO — a scratch worktree used when trialling seeded changes)."""
+    hdir = os.path.join(VERIF, "harness")
+    extra = []
+    if os.path.realpath(REPO) != "/repo":
+        tag = hashlib.sha256(REPO.encode()).hexdigest()[:8]
+        mod = os.path.join(hdir, ".alt-%s.mod" % tag)
+        open(mod, "w").write(open(os.path.join(hdir, "go.mod")).read().replace("=> /repo", "=> " + os.path.realpath(REPO)))
+        shutil.copy(os.path.join(hdir, "go.sum"), os.path.join(hdir, ".alt-%s.sum" % tag))
+        extra = ["-modfile=" + mod]
+    rc, out = sh(["go", "build"] + extra + ["-tags", "verif", "-o", os.path.join(BIN, "h_" + hname), "./" + hname],
+                 cwd=hdir, env=GOENV, timeout=1800)
     return rc == 0, out
 
 
@@ -210,15 +216,15 @@ def run_correspondence(cfg, tier, seed, replay_ops=None, harness_args=None):
                 corpus = sorted(glob.glob(os.path.join(VERIF, "corpus", cfg["prop"], "*.ops")))
                 if corpus:
                     data = "".join(open(c).read() for c in corpus)
-                    p = subprocess.run([BIN + "/harness", hname, "exec"], input=data, text=True, stdout=fh,
+                    p = subprocess.run([BIN + "/h_" + hname, "exec"], input=data, text=True, stdout=fh,
                                        stderr=subprocess.PIPE, env=env, timeout=cfg.get("harness_timeout", 3000))
                     if p.returncode != 0:
                         raise RuntimeError("harness (corpus) failed: " + p.stderr[-2000:])
-                p = subprocess.run([BIN + "/harness", hname, "gen", "-seed", str(seed), "-tier", tier] + (harness_args or []),
+                p = subprocess.run([BIN + "/h_" + hname, "gen", "-seed", str(seed), "-tier", tier] + (harness_args or []),
                                    stdout=fh, stderr=subprocess.PIPE, text=True, env=env,
                                    timeout=cfg.get("harness_timeout", 3000))
             else:
-                p = subprocess.run([BIN + "/harness", hname, "exec"], input=replay_ops, text=True, stdout=fh,
+                p = subprocess.run([BIN + "/h_" + hname, "exec"], input=replay_ops, text=True, stdout=fh,
                                    stderr=subprocess.PIPE, env=env, timeout=cfg.get("harness_timeout", 3000))
             if p.returncode != 0:
                 raise RuntimeError("harness failed (rc=%d): %s" % (p.returncode, p.stderr[-2000:]))
@@ -315,7 +321,7 @@ def standard_check(cfg, tier, seed, replay=None):
     R.coverage["trusted_base"] = cfg.get("trusted_base", [])
     R.coverage["theorems"] = [t.split(".")[-1] for t in theorems]
     # ---- 4-5: correspondence ----
-    hok, hout = build_harness()
+    hok, hout = build_harness(cfg.get("harness", prop.lower()))
     if not hok:
         raise RuntimeError("harness build failed against the current /repo tree:\n" + hout[-3000:])
     replay_ops = None
